@@ -1,6 +1,6 @@
 """Replay for C14: resolve_conflicts / _check_malformed on real transforms; apply refuses a malformed transform before touching the tree."""
 import os, shutil, tempfile
-from _common import request, verdict
+from _common import request, verdict, is_known
 import breezy.bzr  # noqa
 from breezy import controldir, transform as T, errors
 from breezy.transform import MalformedTransform
@@ -41,6 +41,48 @@ try:
             pass
     finally:
         tt2.finalize()
+    # preview == applied for transforms that put a new entry on the name of an entry that is still versioned but has no content
+    # (its file was deleted by the user, or by the transform itself): the duplicate must be found and resolved, and the resolved
+    # transform must apply completely and give exactly what the preview shows
+    for variant in ("missing on disk", "content deleted by the transform"):
+        d2 = os.path.join(base, "v_" + variant.split()[0]); os.mkdir(d2)
+        cd2 = controldir.format_registry.make_controldir("2a").initialize(d2); cd2.create_repository(); cd2.create_branch()
+        wt2 = cd2.create_workingtree()
+        open(os.path.join(d2, "a"), "w").write("old a\n"); open(os.path.join(d2, "b"), "w").write("b\n")
+        wt2.add(["a", "b"], ids=[b"a-id", b"b-id"]); wt2.commit("1", committer="t <t@e.x>")
+        if variant == "missing on disk":
+            os.unlink(os.path.join(d2, "a"))
+        tt3 = wt2.transform()
+        try:
+            if variant != "missing on disk":
+                tt3.delete_contents(tt3.trans_id_tree_path("a"))
+            tt3.new_file("a", tt3.root, [b"brand new a\n"], b"a2-id")
+            T.resolve_conflicts(tt3)
+            pv = tt3.get_preview_tree()
+            expected = sorted((p_, e.file_id, e.kind, pv.get_file_text(p_) if e.kind == "file" and pv.has_filename(p_) and pv.kind(p_) == "file" else None)
+                              for p_, e in pv.iter_entries_by_dir() if p_)
+            paths = [x[0] for x in expected]
+            if len(set(paths)) != len(paths):
+                verdict(True, "after resolve_conflicts the preview still has two versioned entries at one path", input=variant, observed=str(expected))
+            failed_apply = None
+            try:
+                tt3.apply(no_conflicts=True)
+            except Exception as e:  # noqa
+                failed_apply = e
+                wc = "new entry on the name of a versioned entry that is missing from disk and unknown to the transform"
+                if not (variant == "missing on disk" and is_known(wc)):
+                    verdict(True, "a transform that resolve_conflicts declared conflict-free failed while being applied (partially applied tree)",
+                            input=variant, witness_class=wc, observed="%s: %s; disk: %s" % (type(e).__name__, e, sorted(os.listdir(d2))))
+        finally:
+            tt3.finalize()
+        if failed_apply is not None:
+            continue
+        wt3 = wt2.controldir.open_workingtree()
+        with wt3.lock_read():
+            actual = sorted((p_, e.file_id, e.kind, wt3.get_file_text(p_) if e.kind == "file" and os.path.isfile(os.path.join(d2, p_)) else None)
+                            for p_, e in wt3.iter_entries_by_dir() if p_)
+        if actual != expected:
+            verdict(True, "the applied tree differs from the preview", input=variant, observed=str(actual), expected=str(expected))
     verdict(False, "no failing scenario")
 finally:
     shutil.rmtree(base, ignore_errors=True)
